@@ -409,7 +409,16 @@ Definition step (r : req) (w : world) : list req * world :=
             let '(st', acts) := handler (n_op nd) (n_src nd) (n_others nd) (n_st nd) port ser (n_subjs w1) e in
             (map (Act n) acts, set_nst w1 n st')
         | TForward o' => ([Deliver o' e], w1)
+        | TGated _ => ([], w1)
         | TFeed h => ([SubjCall h e], w1)
+        | TFeedK k =>
+            let cn := conns w1 k in
+            ([SubjCall (k_subj cn) e],
+             match e, k_kind cn with
+             | Nx _, _ => w1
+             | _, CReplay => w1                     (* replay keeps a terminated connection: no reconnect *)
+             | _, _ => w_conns (upd (conns w1) k {| k_kind := k_kind cn; k_src := k_src cn; k_subj := k_subj cn; k_slot := None |}) w1
+             end)
         | TTapLog t => ([], w_taplog (taplog w1 ++ [(t, e)]) w1)
         | TJunk => ([], w1)
         end
@@ -546,15 +555,15 @@ Definition step (r : req) (w : world) : list req * world :=
               | Some e, _ => ([AcqL (LHist h) MR; Deliver o (Er e); RelL (LHist h) MR], w)
               | None, None => ([AcqL (LHist h) MR; Deliver o Co; RelL (LHist h) MR], w)
               | None, Some v =>
-                  let '(x, w1) := alloc_cell w in
-                  let '(o', w2) := alloc_obs w1 (TForward o) in
-                  ([AcqL (LHist h) MR; Deliver o (Nx v); RelL (LHist h) MR;
-                    SetTdCell o x; SubjJoin h o'; MkSub o' (DCell x)], w2)
+                  ([AcqL (LHist h) MR; Deliver o (Nx v); RelL (LHist h) MR; BehaviorJoin h o], w)
               end
           | KReplay =>
+              (* cell + teardown; join the live subject through closures that drop everything until the
+                 history has been replayed; replay; record the subscription; leave again if the subscriber left *)
               let '(x, w1) := alloc_cell w in
-              let '(o', w2) := alloc_obs w1 (TForward o) in
-              ([SetTdCell o x; SubjJoin h o'; AcqL (LHist h) MR; Replay h o; RelL (LHist h) MR; MkSub o' (DCell x)], w2)
+              let '(o', w2) := alloc_obs w1 (TGated o) in
+              ([SetTdCell o x; SubjJoin h o'; AcqL (LHist h) MR; Replay h o; ReplayDone h o'; RelL (LHist h) MR;
+                MkSub o' (DCell x); CellCheck o x], w2)
           end
       | POp op src others =>
           match op with
@@ -589,6 +598,10 @@ Definition step (r : req) (w : world) : list req * world :=
   (* ---- subjects (subjects/*.rs) ---- *)
   | SubjCall h e =>
       let sj := subjs w h in
+      (* the history cells are written under a statement-scoped write lock: a callback that is being
+         replayed to (history read lock held) and pushes into the same subject blocks on itself *)
+      if match sj_kind sj with KBehavior | KReplay => conflicts (held w) (LHist h) MW | _ => false end
+      then ([], w_out (SelfDeadlock (LHist h)) w) else
       let sj' := match sj_kind sj, e with
                  | KBehavior, Nx v => sj_set_last sj (Some v)
                  | KBehavior, Er x => sj_set_err sj (Some x)
@@ -613,12 +626,12 @@ Definition step (r : req) (w : world) : list req * world :=
   | Replay h o => (hist_replay (subjs w h) o, w)
   | HookSub h len =>
       match sj_hook (subjs w h) with
-      | Some k => if Nat.eqb len 1 then ([AcqL (LSlot k) MW; Connect k; RelL (LSlot k) MW], w) else ([], w)
+      | Some k => if Nat.eqb len 1 then ([Connect k], w) else ([], w)
       | None => ([], w)
       end
   | HookUnsub h len =>
       match sj_hook (subjs w h) with
-      | Some k => if Nat.eqb len 0 then ([AcqL (LSlot k) MR; SlotUnsub k; RelL (LSlot k) MR], w) else ([], w)
+      | Some k => if Nat.eqb len 0 then ([SlotUnsub k], w) else ([], w)
       | None => ([], w)
       end
   (* ---- connectables (operators/ref_count.rs, replay.rs) ---- *)
@@ -626,10 +639,37 @@ Definition step (r : req) (w : world) : list req * world :=
       let cn := conns w k in
       match k_slot cn with
       | Some _ => ([], w)
-      | None => let '(o', w1) := alloc_obs w (TFeed (k_subj cn)) in
-                ([SubscribePipe (k_src cn) o'; MkSub o' (DSlot k)], w1)
+      | None => let '(o', w1) := alloc_obs w (TFeedK k) in
+                ([MkSub o' (DSlot k); SubscribePipe (k_src cn) o'], w1)
       end
-  | SlotUnsub k => (match k_slot (conns w k) with Some s => [SubUnsub s] | None => [] end, w)
+  | SlotUnsub k =>
+      let cn := conns w k in
+      match k_slot cn with
+      | Some s =>
+          (* replay: a connection whose source has terminated (Subscription::is_subscribed() = false) stays *)
+          if match k_kind cn with CReplay => negb (is_sub (obs w (sb_obs (subs w s)))) | _ => false end then ([], w)
+          else ([SubUnsub s],
+                w_conns (upd (conns w) k {| k_kind := k_kind cn; k_src := k_src cn; k_subj := k_subj cn; k_slot := None |}) w)
+      | None => ([], w)
+      end
+  | BehaviorJoin h o =>
+      if is_sub (obs w o) then
+        let '(x, w1) := alloc_cell w in
+        let '(o', w2) := alloc_obs w1 (TForward o) in
+        ([SetTdCell o x; SubjJoin h o'; MkSub o' (DCell x)], w2)
+      else ([], w)
+  | ReplayDone h o' =>
+      let sj := subjs w h in
+      match sj_err sj, sj_done sj with
+      | None, false => ([], match o_tgt (obs w o') with
+                            | TGated o => set_obs w o' {| o_n := o_n (obs w o'); o_e := o_e (obs w o'); o_c := o_c (obs w o');
+                                                          o_td := o_td (obs w o'); o_tgt := TForward o |}
+                            | _ => w
+                            end)
+      | _, _ => ([], w)
+      end
+  | CellCheck o x =>
+      if is_sub (obs w o) then ([], w) else ([AcqL (LCell x) MR; CellUnsub x; RelL (LCell x) MR], w)
   (* ---- Subscription (subscription.rs) ---- *)
   | MkSub o d =>
       let s := n_subs w in
